@@ -245,15 +245,77 @@ fn words() -> Vec<Vec<f64>> {
     w
 }
 
+/// collect through rayon's `FromParallelIterator` (by value and by reference) for every word
+/// of length <= 3: the extreme is exact whatever the split, so the real pool may schedule as
+/// it likes and the answer must still be the ghost extreme (C19 explores the split trees)
+pub struct ParCollect<T: Extreme> {
+    _t: PhantomData<T>,
+}
+impl<T> Check for ParCollect<T>
+where
+    T: Extreme + rayon::iter::FromParallelIterator<f64> + for<'a> rayon::iter::FromParallelIterator<&'a f64>,
+{
+    fn name(&self) -> String {
+        format!("C14/parallel-collect/{}", T::NAME)
+    }
+    fn run(&self) -> crate::explore::Stats {
+        let t0 = std::time::Instant::now();
+        let a = alphabet("ext");
+        let mut ws = vec![vec![]];
+        for n in 1..=3 {
+            ws.extend(all_lists(&a, n));
+        }
+        let mut st = crate::explore::Stats { spec: self.name(), depth_requested: 3, depth_completed: 3, ..Default::default() };
+        let mut found: std::collections::BTreeMap<String, crate::explore::Found> = Default::default();
+        for w in &ws {
+            for v in self.replay(&[json!({"word": w.iter().map(|x| fshow(*x)).collect::<Vec<_>>()})]).unwrap_or_default() {
+                let e = found.entry(v.sig.clone()).or_insert(crate::explore::Found { sig: v.sig, detail: v.detail, path: vec![json!({"word": w.iter().map(|x| fshow(*x)).collect::<Vec<_>>()})], count: 0 });
+                e.count += 1;
+            }
+            st.states += 1;
+            st.transitions += 2;
+        }
+        st.maximal = st.states;
+        st.nontrivial_states = st.states - 1;
+        st.outcomes = a.len() as u64;
+        st.samples.push(json!({"spec": self.name(), "history": [{"par_collect": format!("{:?}", ws[ws.len() / 2])}]}));
+        st.found = found.into_values().collect();
+        st.wall_s = t0.elapsed().as_secs_f64();
+        st
+    }
+    fn replay(&self, path: &[Value]) -> Result<Vec<Violation>, String> {
+        use rayon::prelude::*;
+        let w: Vec<f64> = path.first().and_then(|v| v.get("word")).and_then(|r| r.as_array()).ok_or("no word")?.iter().map(fparse).collect::<Option<Vec<_>>>().ok_or("bad word")?;
+        let ghost = w.iter().fold(neutral::<T>(), |g, x| ghost_fold::<T>(g, *x));
+        let mut out = Vec::new();
+        let w1 = w.clone();
+        let by_val = guarded(move || w1.into_par_iter().collect::<T>().value());
+        let w2 = w.clone();
+        let by_ref = guarded(move || w2.par_iter().collect::<T>().value());
+        for (how, r) in [("by-value", by_val), ("by-reference", by_ref)] {
+            match r {
+                Ok(g) if g == ghost => {}
+                other => out.push(Violation {
+                    sig: format!("{}.parallel-collect:{how}:wrong-extreme", T::NAME),
+                    detail: format!("{} collected in parallel ({how}) from {w:?} reports {other:?} but the extreme of the non-NaN observations is {ghost:?}", T::NAME),
+                }),
+            }
+        }
+        Ok(out)
+    }
+}
+
 pub fn plan(_tier: Tier) -> Plan {
     let mut checks: Vec<Box<dyn Check>> = Vec::new();
+    checks.push(Box::new(ParCollect::<Min> { _t: PhantomData }));
+    checks.push(Box::new(ParCollect::<Max> { _t: PhantomData }));
     checks.push(Box::new(Bfs::new(XSpec::<Min> { words: words(), _t: PhantomData }, 64)));
     checks.push(Box::new(Bfs::new(XSpec::<Max> { words: words(), _t: PhantomData }, 64)));
     // the same two specs enumerated independently by stateright (counts and verdicts must agree)
     checks.push(cross(XSpec::<Min> { words: words(), _t: PhantomData }, 64));
     checks.push(cross(XSpec::<Max> { words: words(), _t: PhantomData }, 64));
     Plan {
-        rule: "values {-inf,-1,-0.0,0.0,5e-324,1,+inf,NaN}; initial states new(), default(), from_value(v) for every non-NaN v, collect (by value and by reference) of every word of length <= 2; operations add(v), merge(from_value(v)), merge(new()), merge(collect(w)), collect(w).merge(self), extend(w) by value and by reference; state = (real object, ghost extreme of the non-NaN observations absorbed); the state space is finite and the BFS reaches its fixpoint, so the verdict covers histories of any length over this alphabet".into(),
+        rule: "values {-inf,-1,-0.0,0.0,5e-324,1,+inf,NaN}; initial states new(), default(), from_value(v) for every non-NaN v, collect (by value and by reference) of every word of length <= 2; operations add(v), merge(from_value(v)), merge(new()), merge(collect(w)), collect(w).merge(self), extend(w) by value and by reference, and parallel collect (rayon, by value and by reference) of every word of length <= 3; state = (real object, ghost extreme of the non-NaN observations absorbed); the state space is finite and the BFS reaches its fixpoint, so the verdict covers histories of any length over this alphabet".into(),
         assumptions: common_assumptions(),
         checks,
     }
